@@ -104,7 +104,8 @@ try:
             meta[k] = old[k]
     # checks of other properties run earlier stay on record
     for pr, rs in old.get("checks", {}).items():
-        meta.setdefault("checks", {}).setdefault(pr, rs)
+        if any(r["exit"] in (0, 1) for r in rs):      # inconclusive runs (exit 2) of an earlier evaluation are not kept
+            meta.setdefault("checks", {}).setdefault(pr, rs)
     meta["detected_by"] = [pr for pr, rs in meta.get("checks", {}).items() if any(r["exit"] == 1 for r in rs)]
 except (OSError, ValueError):
     pass
